@@ -54,6 +54,7 @@ class CisLink:
     cig_id: int
     acl_connection: Connection | None = None
     data_paths: set[int] = dataclasses.field(default_factory=set)
+    established: bool = False
 
 
 # -----------------------------------------------------------------------------
@@ -724,6 +725,28 @@ class Controller:
         advertiser.stop()
 
     def on_le_disconnected(self, connection: Connection, reason: int) -> None:
+        # A CIS does not outlive the ACL connection it belongs to
+        for cis_link in itertools.chain(
+            list(self.central_cis_links.values()),
+            list(self.peripheral_cis_links.values()),
+        ):
+            if cis_link.acl_connection is not connection:
+                continue
+            if cis_link.established:
+                self.send_hci_packet(
+                    hci.HCI_Disconnection_Complete_Event(
+                        status=hci.HCI_ErrorCode.SUCCESS,
+                        connection_handle=cis_link.handle,
+                        reason=reason,
+                    )
+                )
+            else:
+                self.send_cis_established_event(cis_link, reason)
+            # Central CIS are kept until removed by hci.HCI_LE_Remove_CIG_Command.
+            self.peripheral_cis_links.pop(cis_link.handle, None)
+            cis_link.acl_connection = None
+            cis_link.established = False
+
         # Send a disconnection complete event
         self.send_hci_packet(
             hci.HCI_Disconnection_Complete_Event(
@@ -947,10 +970,13 @@ class Controller:
             )
             if cis_link.cis_id == cis_id and cis_link.cig_id == cig_id
         )
+        cis_link.established = True
+        self.send_cis_established_event(cis_link, hci.HCI_ErrorCode.SUCCESS)
 
+    def send_cis_established_event(self, cis_link: CisLink, status: int) -> None:
         self.send_hci_packet(
             hci.HCI_LE_CIS_Established_Event(
-                status=hci.HCI_ErrorCode.SUCCESS,
+                status=status,
                 connection_handle=cis_link.handle,
                 # CIS parameters are ignored.
                 cig_sync_delay=0,
@@ -995,6 +1021,7 @@ class Controller:
         ):
             # Keep central CIS on disconnection. They should be removed by hci.HCI_LE_Remove_CIG_Command.
             cis_link.acl_connection = None
+            cis_link.established = False
         else:
             return
 
